@@ -256,6 +256,24 @@ func checkAcr(c AcrCase) error {
 			}
 		}
 	}
+	if !c.Random {
+		// a second run on the same (now annotated) tree object gives the same steps and annotations
+		res2, steps2, err := acr.ParsimonyAcr(t, tipState, algos[c.Algo], false)
+		if err != nil || steps2 != steps || len(res2) != len(res) {
+			return fmt.Errorf("second ParsimonyAcr on the same tree: %d steps (%v), first run %d%s", steps2, err, steps, ctx())
+		}
+		for i, n := range nodesBefore {
+			_ = i
+			if len(n.Comments()) != 1 {
+				return fmt.Errorf("after a second run a node carries %d annotations%s", len(n.Comments()), ctx())
+			}
+			parts := strings.Split(n.Comments()[0], "|")
+			sort.Strings(parts)
+			if g := strings.Join(parts, "|"); g != got[nm[n]] {
+				return fmt.Errorf("second run on the same tree annotates %q, the first run %q%s", g, got[nm[n]], ctx())
+			}
+		}
+	}
 	if single && !c.Random {
 		// unambiguous everywhere: the output itself must be most parsimonious
 		changes := 0
@@ -385,6 +403,9 @@ func genAsr(t *rapid.T, thorough bool) AsrCase {
 	L := rapid.IntRange(1, 12).Draw(t, "len")
 	if thorough && rapid.IntRange(0, 9).Draw(t, "long") == 0 {
 		L = rapid.IntRange(13, 30).Draw(t, "len2")
+	}
+	if rapid.IntRange(0, 39).Draw(t, "verylong") == 0 {
+		L = rapid.IntRange(65, 90).Draw(t, "len3") // more than 64 sites
 	}
 	ambiguous := rapid.Bool().Draw(t, "ambiguous")
 	seqs := make([][]byte, n)
